@@ -135,21 +135,33 @@ fn range_step_backwards(
     (0..length).map(move |idx| start as usize - idx * step)
 }
 
+/// Converts a slice bound or step.  Integers beyond the range of an `i64` are
+/// clamped like Python does: no sequence is long enough to tell the difference.
+fn slice_bound(value: Value) -> Result<i64, Error> {
+    let clamped = match value.0 {
+        ValueRepr::U64(_) | ValueRepr::U128(_) => i64::MAX,
+        ValueRepr::I128(v) if v.0 < 0 => i64::MIN,
+        ValueRepr::I128(_) => i64::MAX,
+        _ => return i64::try_from(value),
+    };
+    Ok(i64::try_from(value).unwrap_or(clamped))
+}
+
 pub fn slice(value: Value, start: Value, stop: Value, step: Value) -> Result<Value, Error> {
     let start = if start.is_none() {
         None
     } else {
-        Some(ok!(start.try_into()))
+        Some(ok!(slice_bound(start)))
     };
     let stop = if stop.is_none() {
         None
     } else {
-        Some(ok!(i64::try_from(stop)))
+        Some(ok!(slice_bound(stop)))
     };
     let step = if step.is_none() {
         1i64
     } else {
-        ok!(i64::try_from(step))
+        ok!(slice_bound(step))
     };
     if step == 0 {
         return Err(Error::new(
